@@ -588,6 +588,13 @@ func classify(c *Checked, generic bool) map[string]string {
 			add("C10", msg)
 			continue
 		}
+		// generated into another package, a type of the source package written without qualifier
+		if i := strings.Index(msg, "undefined: "); i >= 0 && !c.inPlace && c.src != nil {
+			name := strings.Fields(msg[i+len("undefined: "):] + " ")[0]
+			if c.src.Scope().Lookup(name) != nil {
+				add("C10", msg)
+			}
+		}
 		if i >= len(c.errPos) || !c.errPos[i].IsValid() {
 			continue
 		}
